@@ -1,2 +1,118 @@
-import Moclo.Model.Entity
-/-! placeholder for C04 (theorems follow) -/
+import Moclo.Proofs.Cut
+import Moclo.Props.C02
+import Moclo.Tables.Kits
+import Moclo.Tables.Enzymes
+/-!
+# C04 — reported overhangs and fragments are true restriction fragments of the cutter
+
+Model: `ClassSpec.matchSeq`, `Match.group`, `targetWord`, placeholder; `cutAligned` (a decidable property
+of a structure pattern relative to a cutter geometry, kernel-checked for all 85 kit classes and for the
+generic / signature-typed structures over every supported enzyme on the regenerated tables).
+
+All statements are about the *window* `text = window w i` the structure matched in — a rotation of the
+plasmid — so they hold wherever the origin of the record lies, and for every accepted record whether or not
+it is otherwise well formed (only soundness of the matcher is used, no uniqueness).
+A site "matched at `s`" means its letters are matched letterwise (`matchesAt`), i.e. the enzyme recognises
+it there; the enzyme cuts the top strand `|site| + off` letters after the start of a forward site, and
+leaves the `k` letters that follow single-stranded; for a site on the other strand the overhang is the `k`
+letters ending `off` letters before it.
+-/
+namespace Moclo.C04
+open Moclo
+
+/-- every concrete class of the five kits is cut-aligned for its own cutter (as the structures are now) -/
+theorem kit_classes_cut_aligned : ∀ r ∈ Generated.kits, cutAligned (Tables.KitRow.geom r) r.pat = true :=
+  fun r hr => List.all_eq_true.mp Tables.kits_cutAligned r hr
+
+/-- … and so are the generic and signature-typed structures over every supported enzyme -/
+theorem generic_classes_cut_aligned : ∀ r ∈ Generated.enzymes,
+    cutAligned (Tables.EnzRow.geom r) r.modS = true ∧ cutAligned (Tables.EnzRow.geom r) r.vecS = true ∧
+    cutAligned (Tables.EnzRow.geom r) r.modP = true ∧ cutAligned (Tables.EnzRow.geom r) r.vecP = true := by
+  intro r hr
+  have := List.all_eq_true.mp Tables.enzymes_cutAligned r hr
+  simp only [Bool.and_eq_true] at this
+  exact ⟨this.1.1.1, this.1.1.2, this.1.2, this.2⟩
+
+/-- the relative marks of a match of a cut-aligned structure, and where the sites are -/
+theorem marks_and_sites {g : Geom} {p : Pat} {text : Word} {rel : List Nat}
+    (hca : cutAligned g p = true) (h : relMatch p text = some rel) :
+    ∃ a1 b2 e, rel.reverse = [a1, a1 + g.k, a1 + g.k, b2, b2, b2 + g.k, e] ∧ a1 + g.k ≤ b2 ∧ b2 + g.k ≤ e ∧
+      e ≤ text.length ∧
+      ((g.site.length + g.off ≤ a1 ∧ matchesAt g.site (text.drop (a1 - g.off - g.site.length))) ∨
+        matchesAt (rcNt g.site) (text.drop (a1 + g.k + g.off))) ∧
+      (matchesAt (rcNt g.site) (text.drop (b2 + g.k + g.off)) ∨
+        (a1 + g.k + g.site.length + g.off ≤ b2 ∧ matchesAt g.site (text.drop (b2 - g.off - g.site.length)))) := by
+  obtain ⟨ms, e, hr, hrev⟩ := relMatch_run h
+  obtain ⟨a1, b2, hms, h1, h2, h3, h4⟩ := cutAligned_sound hca hr
+  refine ⟨a1, b2, e, by rw [hrev, hms]; rfl, h1, h2, ?_, h3, h4⟩
+  have := hr.bounds.2.1; omega
+
+/-- **overhangs, target and placeholder of an accepted record**: with `a1`, `b2` as above,
+* the overhang reported from group 1 is `text[a1, a1+k)` and the one from group 3 is `text[b2, b2+k)`, each
+  the single-stranded end of a cut of the enzyme (by `marks_and_sites`);
+* a module's target is `text[a1, b2)`: from the first cut to the second, leading overhang included, trailing
+  one excluded; a vector's target is the complementary stretch `text[b2, end) ++ text[0, a1)`;
+* a vector's placeholder is the contiguous stretch `text[a1, b2)`. -/
+theorem accepted_record_fragments {c : ClassSpec} {w : Word} {i : Nat} {rel : List Nat}
+    (hca : cutAligned c.geom c.pat = true) (h3 : C02.ThreeGroups c.pat) (hi : i < w.length)
+    (hrel : relMatch c.pat (window w i) = some rel)
+    (hs : search c.pat w true = some ⟨i :: rel.reverse.map (· + i)⟩)
+    {up down tgt ph : Word} (hrep : C02.report c w = .ok (up, down, tgt, ph)) :
+    ∃ a1 b2 e, rel.reverse = [a1, a1 + c.geom.k, a1 + c.geom.k, b2, b2, b2 + c.geom.k, e] ∧
+      (match c.kind with
+       | .module => up = slice (window w i) a1 (a1 + c.geom.k) ∧ down = slice (window w i) b2 (b2 + c.geom.k) ∧
+                    tgt = slice (window w i) a1 b2
+       | .vector => down = slice (window w i) a1 (a1 + c.geom.k) ∧ up = slice (window w i) b2 (b2 + c.geom.k) ∧
+                    tgt = (window w i).drop b2 ++ (window w i).take a1) ∧
+      ph = slice (window w i) a1 b2 := by
+  obtain ⟨a1, b2, e, hrs, h1, h2, h4, _, _⟩ := marks_and_sites hca hrel
+  rw [C02.report_of_view h3 hi hrel hs] at hrep
+  split at hrep
+  · cases hrep
+  · simp only [Except.ok.injEq, Prod.mk.injEq] at hrep
+    obtain ⟨e1, e2, e3, e4⟩ := hrep
+    refine ⟨a1, b2, e, hrs, ?_, ?_⟩
+    · cases hk : c.kind
+      · simp only [ClassSpec.upGroup, ClassSpec.downGroup, hk] at e1 e2 e3
+        simp only []
+        refine ⟨?_, ?_, ?_⟩
+        · rw [← e1, hrs]; simp [vgroup, rspan]
+        · rw [← e2, hrs]; simp [vgroup, rspan]
+        · rw [← e3, hrs]; simp [vTarget, rspan, hk]
+      · simp only [ClassSpec.upGroup, ClassSpec.downGroup, hk] at e1 e2 e3
+        simp only []
+        refine ⟨?_, ?_, ?_⟩
+        · rw [← e2, hrs]; simp [vgroup, rspan]
+        · rw [← e1, hrs]; simp [vgroup, rspan]
+        · rw [← e3, hrs]; simp [vTarget, rspan, hk]
+    · rw [← e4, hrs]
+      simp only [vgroup, rspan, slice]
+      simp
+      -- text[a1, a1+k) ++ text[a1+k, b2) = text[a1, b2)
+      have hsplit : b2 - a1 = c.geom.k + (b2 - (a1 + c.geom.k)) := by omega
+      rw [hsplit, List.take_add]
+      congr 2
+      rw [List.drop_drop]
+
+/-- **placeholder and target tile the plasmid**: for a vector, placeholder followed by target is the window
+rotated to the start of the placeholder — every nucleotide of the plasmid exactly once -/
+theorem placeholder_target_tile (text : Word) (a1 b2 : Nat) (h1 : a1 ≤ b2) (h2 : b2 ≤ text.length) :
+    slice text a1 b2 ++ (text.drop b2 ++ text.take a1) = text.rotate a1 := by
+  rw [List.rotate_eq_drop_append_take (by omega)]
+  unfold slice
+  rw [← List.append_assoc]
+  congr 1
+  have : text.drop b2 = (text.drop a1).drop (b2 - a1) := by rw [List.drop_drop]; congr 1; omega
+  rw [this, List.take_append_drop]
+
+theorem placeholder_target_isRotated (w : Word) (i a1 b2 : Nat) (hi : i < w.length) (h1 : a1 ≤ b2) (h2 : b2 ≤ w.length) :
+    (slice (window w i) a1 b2 ++ ((window w i).drop b2 ++ (window w i).take a1)) ~r w := by
+  rw [placeholder_target_tile _ _ _ h1 (by rw [window_length w i (Nat.le_of_lt hi)]; exact h2),
+    window_eq_rotate w i (Nat.le_of_lt hi)]
+  exact (List.IsRotated.forall _ _).trans (List.IsRotated.forall _ _)
+
+/-! non-vacuity: the toy module of C01/C02 -/
+example : cutAligned C02.g C02.c.pat = true := by decide
+example : cutAligned ⟨[.G,.A,.A,.G,.A,.C], 2, 4⟩ (vectorStructure ⟨[.G,.A,.A,.G,.A,.C], 2, 4⟩) = true := by decide
+
+end Moclo.C04
